@@ -83,6 +83,7 @@ def shards(tier, seed):
             out.append(("scalar", which, mode))
         out.append(("parse", which))
     out.append(("log",))
+    out.append(("mode-switch",))
     return out
 
 
@@ -428,6 +429,49 @@ def run_mixed(acc, which, mode, arr):
     acc.sample({"clause": "arithmetic", "registry": which, "mode": mode, "example": "Q(2, m*s) * Q(10, degC) -> 566.3 K*m*s in autoconvert mode, refused otherwise"})
 
 
+# ----------------------------------------------------------------------------- switching the mode of a live registry
+
+SWITCH_CONV = [("dBm/Hz", "mW/Hz"), ("dBm/Hz", "W/kHz"), ("mW/Hz", "dBm/Hz"), ("degC/meter", "kelvin/meter"), ("degC*meter", "kelvin*meter"), ("dB*meter", "meter"), ("degC", "kelvin"), ("degC", "degF"),
+               ("delta_degC/meter", "kelvin/meter"), ("1/degC", "1/kelvin"), ("degC**2", "kelvin**2"), ("dBW", "watt"), ("decade", "octave")]
+
+
+def run_mode_switch(acc):
+    """the documented result of a conversion or product depends on the registry MODE, and the mode is an attribute
+    that may be set on a live registry: after every sequence of <= 3 mode settings, each conversion of the list (and
+    a product, a power) answers like a fresh registry built in the current mode"""
+    def observe(ureg):
+        Q = ureg.Quantity
+        out = []
+        for src, dst in SWITCH_CONV:
+            o = call(lambda: Q(-20.0, ureg.parse_units(src, as_delta=False)).to(dst).magnitude)
+            out.append((src + "->" + dst, (o[0], round(o[1], 9)) if o[0] == "ok" else o))
+        for name, fn in (("degC*m", lambda: Q(10.0, "degC") * Q(2.0, "meter")), ("degC**2", lambda: Q(10.0, "degC") ** 2), ("2*degC", lambda: 2 * Q(10.0, "degC")), ("m/degC", lambda: Q(2.0, "meter") / Q(10.0, "degC"))):
+            o = call(fn)
+            out.append((name, (o[0], round(float(o[1].magnitude), 9), sorted(dict(o[1]._units).items())) if o[0] == "ok" else o))
+        return out
+
+    ref = {m: observe(regs.default("float", fresh=True, autoconvert_offset_to_baseunit=m)) for m in (True, False)}
+    for n in (1, 2, 3):
+        for seq in itertools.product((True, False), repeat=n):
+            for first in (True, False):
+                ureg = regs.default("float", fresh=True, autoconvert_offset_to_baseunit=first)
+                history = [f"built with autoconvert={first}"]
+                for m in seq:
+                    # the previous mode is USED before it is changed: whatever it memoised must not outlive it
+                    observe(ureg)
+                    ureg.autoconvert_offset_to_baseunit = m
+                    history.append(f"observe; set autoconvert={m}")
+                    got = observe(ureg)
+                    acc.ev()
+                    acc.nt(("mode-switch", first, seq, len(history)))
+                    for (k, g), (_, w) in zip(got, ref[m]):
+                        if g != w:
+                            acc.violation(["mode-switch", k, "MODE", "answer-of-the-previous-mode-survives-the-switch", "autoconvert" if m else "default"], {"history": list(history), "probe": k}, show(w) if not isinstance(w, tuple) or w[0] != "exc" else w, g)
+                            break
+    acc.outcome("mode-switch")
+    acc.sample({"clause": "mode-switch", "history": ["built with autoconvert=True", "observe; set autoconvert=False"], "probe": "dBm/Hz->mW/Hz", "expected": "DimensionalityError"})
+
+
 # ----------------------------------------------------------------------------- parsing
 
 
@@ -578,6 +622,8 @@ def run_shard(acc, shard, tier, seed):
         run_parse(acc, shard[1])
     elif k == "log":
         run_log(acc)
+    elif k == "mode-switch":
+        run_mode_switch(acc)
     else:
         raise core.HarnessError(str(shard))
 
@@ -599,6 +645,8 @@ def replay(rec):
         run_parse(acc, which)
     elif site[0] == "log":
         run_log(acc)
+    elif site[0] == "mode-switch":
+        run_mode_switch(acc)
     sites = {tuple(v["site"]) for v in acc.violations}
     return tuple(site) in sites, {"sites_seen": sorted(sites)[:20]}
 
@@ -608,7 +656,7 @@ MANIFEST = {
     "technique": "bounded exhaustive enumeration of (unit kind x unit kind x operator x registry mode x scalar/array x functional/in-place) cells against exact affine/logarithmic maps and the documented result-kind table",
     "text": "Every ordered pair of the 8 temperature-like units (2 absolute, 3 offset, 3 delta) x 5 magnitudes is converted (to/convert/m_as/ito) and inverted in the Fraction registry and compared exactly with "
     "the affine maps read from the definition text; offset<->delta and offset-in-compound conversions must raise DimensionalityError. Every (L,R) unit pair x {+,-,*,/} x {default, autoconvert} x {scalar, "
-    "ndarray} x {functional, in-place} cell must produce exactly the documented unit and value or OffsetUnitCalculusError, and must leave every operand but an in-place target unchanged. Products and quotients of every temperature-like unit with ordinary quantities whose container has one, several or no units, in both orders, same modes and forms. Scalar partners, "
+    "ndarray} x {functional, in-place} cell must produce exactly the documented unit and value or OffsetUnitCalculusError, and must leave every operand but an in-place target unchanged. Products and quotients of every temperature-like unit with ordinary quantities whose container has one, several or no units, in both orders, same modes and forms. Switching autoconvert_offset_to_baseunit on a LIVE registry: after every sequence of <= 3 settings (the previous mode used before each) 13 conversions and 4 products answer like a fresh registry of the current mode. Scalar partners, "
     "powers, ordering, log<->linear and log<->log pairs (scalars, and ndarrays through to / ito / convert(inplace=True)), refusal of log arithmetic, and parse_units delta substitution under as_delta/default_as_delta complete the cell space. thorough repeats it on a "
     "generated registry with rational scale/offset units.",
     "note": "Trusted: R1's reading of scale/offset (their standardised values are C20's subject), the result-kind table (DESIGN Appendix B, transcribed from docs and test tables), math.log/exp for the log "
